@@ -1,5 +1,6 @@
 SPECIFICATION Spec
 CONSTANTS
+  HeaderWidth = 6
   MaxWidth = 4
 INVARIANT Inv_PositionBijection
 INVARIANT Inv_RejectsMissing
